@@ -68,6 +68,56 @@ fn kind(c: &Cmd) -> &'static str {
     }
 }
 
+/// Structured sequences (the first cases of every run): thresholds of 2..3 root keys reached — or
+/// not — by signing repeatedly with the same / with different keys, with and without
+/// --ignore-threshold in between, for every kind of key file.
+fn template(i: u64) -> Option<Vec<Cmd>> {
+    let nk = KEYS.len() as u64; // 4 key files
+    let shapes = 6u64;
+    if i >= nk * nk * shapes {
+        return None;
+    }
+    let k1 = (i % nk) as usize;
+    let k2 = ((i / nk) % nk) as usize;
+    let shape = i / (nk * nk);
+    if k1 == k2 {
+        return Some(vec![Cmd::Init(None), Cmd::BumpVersion]);
+    }
+    let k3 = (0..KEYS.len()).find(|k| *k != k1 && *k != k2).unwrap();
+    let mut v = vec![Cmd::Init(None), Cmd::AddKey { keys: vec![k1, k2, k3], roles: vec![0, 1, 2, 3] }];
+    for role in 1..4 {
+        v.push(Cmd::SetThreshold { role, t: 1 });
+    }
+    let t = if shape % 2 == 0 { 2 } else { 3 };
+    v.push(Cmd::SetThreshold { role: 0, t });
+    let s = |keys: Vec<usize>, ignore: bool| Cmd::Sign { keys, ignore, cross: false };
+    match shape / 2 {
+        0 => {
+            // same key again and again
+            v.push(s(vec![k1], true));
+            v.push(s(vec![k1], false));
+            v.push(s(vec![k1], false));
+            v.push(s(vec![k1, k2], false));
+        }
+        1 => {
+            // one key at a time until the threshold is really met
+            v.push(s(vec![k1], true));
+            v.push(s(vec![k2], true));
+            v.push(s(vec![k1], false));
+            v.push(s(vec![k3], false));
+        }
+        _ => {
+            // edit in between: signatures must be gone, the count starts again
+            v.push(s(vec![k1, k2], true));
+            v.push(Cmd::BumpVersion);
+            v.push(s(vec![k1], true));
+            v.push(s(vec![k1], false));
+            v.push(s(vec![k2], false));
+        }
+    }
+    Some(v)
+}
+
 fn gen_seq(r: &mut Rng) -> Vec<Cmd> {
     let n = 3 + r.usize(10);
     let mut v = vec![Cmd::Init(if r.chance(1, 4) { Some(*r.pick(&[1u64, 2, 7, 1 << 32])) } else { None })];
@@ -180,7 +230,16 @@ fn own_valid_signers(doc: &J) -> Result<(u64, u64), String> {
 fn run_case(w: &mut Worker, i: u64) -> CaseOut {
     let mut out = CaseOut::default();
     let mut r = Rng::for_case(w.cfg.seed, "C20", i);
-    let seq = gen_seq(&mut r);
+    let seq = match template(i) {
+        Some(t) => {
+            out.h("sequence=template");
+            t
+        }
+        None => {
+            out.h("sequence=seeded-random");
+            gen_seq(&mut r)
+        }
+    };
     let dir = w.case_dir();
     for (k, pk) in KEYS.iter().enumerate() {
         std::fs::write(key_path(&dir, k), key(*pk).private_file()).unwrap();
@@ -254,6 +313,8 @@ fn run_case(w: &mut Worker, i: u64) -> CaseOut {
             }
             Cmd::SaveForCross => unreachable!(),
         }
+        // a set RUST_BACKTRACE makes every failing invocation symbolise a backtrace (~150 ms each)
+        cmd.env("RUST_BACKTRACE", "0").env("RUST_LIB_BACKTRACE", "0");
         let st = cmd.stdout(Stdio::null()).stderr(Stdio::null()).status();
         out.evals += 1;
         let ok = matches!(&st, Ok(s) if s.success());
@@ -342,7 +403,8 @@ pub fn run(cfg: &Cfg) -> i32 {
         return 2;
     }
     let _ = pool();
-    let n = cfg.tier.pick(300u64, 6_000);
+    // 96 structured sequences first, then seeded random ones
+    let n = cfg.tier.pick(96 + 250u64, 96 + 6_000);
     let budget = cfg.tier.pick(Duration::from_secs(600), Duration::from_secs(3000));
     let ev = par_run(cfg, n, budget, |w, i| Some(run_case(w, i)));
     let mut required: Vec<String> = Vec::new();
